@@ -47,6 +47,9 @@ def run(ctx):
                  # values that agree to several significant digits still identify different combinations
                  ("MassFunction", {}, {"delta_c": [1.686, 1.68647, 1.6864700001], "z": [0.0, 1.0]}, ["dndm"], "display", False),
                  ("Transfer", {}, {"sigma_8": [0.8, 0.80004], "cosmo_params": [{"Om0": 0.3}, {"Om0": 0.30001}]}, ["power"], "filename", False),
+                 # values that differ only by sign (both label kinds)
+                 ("Transfer", {}, {"n": [-1.0, 1.0], "sigma_8": [0.8, 0.9]}, ["power"], "filename", False),
+                 ("Transfer", {}, {"n": [-1.0, 1.0], "lnk_min": [-12.0, -1.2]}, ["power"], "display", False),
                  # an empty dict among dict-valued elements, reached after a non-empty one (alone and as the inner loop of a grid)
                  ("MassFunction", {"hmf_model": "SMT"}, {"hmf_params": [{"a": 0.8}, {}]}, ["dndm"], "display", False),
                  ("MassFunction", {"hmf_model": "SMT"}, {"hmf_params": [{"a": 0.8}, {}, {"a": 0.75}], "z": [0.0, 1.0]}, ["dndm"], "display", False),
